@@ -9,6 +9,7 @@
   length — or is stated explicitly.
 -/
 import GeoModel.Interp
+import GeoModel.Gen.InterpGen
 import GeoProofs.Lemmas.C15
 import GeoProofs.Lemmas.C15PSimple
 import GeoProofs.Lemmas.C15POn
@@ -1182,5 +1183,19 @@ example : lsLineLocatePoint l1 [⟨0, 0⟩, ⟨2, 0⟩, ⟨2, 3⟩] ⟨2, 0⟩ =
     (by norm_num [lsLength, Interp.segs, sumLen, l1]) _
     (by norm_num [lsPointAtRatioFromStart, lsPointAtDistanceFromStart, lsLength, Interp.segs, sumLen, l1,
       walk, pointAtDistanceBetween])
+
+/-! ### tie to the source -/
+
+/-- [E2] `Line::line_locate_point` of the model is the term `translator/rs2lean.py` regenerates on every
+run from the Rust body in geo/src/algorithm/line_locate_point.rs (with `Point::dot` from geo-types, and
+`is_finite()` true of every rational): the zero-length guard `v_sq == 0`, the projection quotient and the
+clamp `max(0).min(1)`. A changed guard, operand or clamp changes the regenerated definition and this
+theorem stops checking. -/
+theorem lineLocatePoint_eq_source (a b p : Pt) :
+    Gen.lineLocatePoint a b p = some (lineLocatePoint a b p) := by
+  unfold Gen.lineLocatePoint lineLocatePoint Gen.pointDot clamp01
+  have hs : ∀ u v : Pt, (u - v).x = u.x - v.x ∧ (u - v).y = u.y - v.y := fun _ _ => ⟨rfl, rfl⟩
+  simp only [(hs _ _).1, (hs _ _).2, beq_iff_eq, if_true]
+  split <;> rfl
 
 end Geo.Proofs.C15
